@@ -26,17 +26,28 @@ let check_cl (t : toks) : string =
   expect t ";"; expect t "TAGSBACK"; let tagsback = next_bool t in
   expect t ";"; expect t "DISTURBED"; let disturbed = next_bool t in
   let where = Printf.sprintf "n=%d nseg=%d cut=%d end=%s delivered=%d" n nseg cut endk delivered in
-  let kind_class = function "M" -> "ok" | "E" -> "rerr" | _ -> "invalid" in
+  let kind_class = function "M" | "L" | "K" -> "ok" | "E" -> "rerr" | _ -> "invalid" in
   (* expected class per call: replies delivered completely before the failure count *)
   let expected = Array.make n "connerr" in
   List.iteri (fun pos (idx, k) -> if pos < delivered && idx < n then expected.(idx) <- kind_class k) order;
   let failing = endk <> "none" in
   (* ---------------- oracles ---------------- *)
   let verdict = ref "OK" in
-  let bad s = if !verdict = "OK" then verdict := s in
+  (* with a complete reply stream cut into several reads, any wrong outcome also means that the
+     behaviour depends on the segmentation (C13) *)
+  let bad s =
+    if !verdict = "OK" then
+      verdict :=
+        (if nseg > 1 && not failing then
+           (match String.index_opt s ' ' with
+            | Some i0 -> (match String.index_from_opt s (i0 + 1) ' ' with
+                          | Some i1 -> String.sub s 0 i1 ^ "|C13.client_outcome_depends_on_segmentation" ^ String.sub s i1 (String.length s - i1)
+                          | None -> s ^ "|C13.client_outcome_depends_on_segmentation")
+            | None -> s)
+         else s) in
   if hang then bad ("ORACLE C10.call_never_returned " ^ where);
   if not tagsback then bad ("ORACLE C09.tags_not_recycled " ^ where);
-  if disturbed then bad ("ORACLE C13.client_reply_disturbed_by_later_bytes " ^ where);
+  if disturbed then bad ("ORACLE C13.client_reply_disturbed_by_later_bytes|C09.call_holds_another_calls_data " ^ where);
   if not distinct then bad ("ORACLE C09.outstanding_tags_not_distinct " ^ where);
   List.iteri (fun i (c, own) ->
       if c = "hang" then bad ("ORACLE C10.call_never_returned " ^ where)
@@ -62,7 +73,7 @@ let check_cl (t : toks) : string =
     let nat = nat_of_int in
     let calls = List.concat (List.init n (fun i -> [LNewCall (false, None)])) in
     let prep = List.concat (List.init n (fun i -> [LAlloc (nat i); LLock (nat i); LHandoff (nat i)])) in
-    let kd = function "M" -> KMatch | "E" -> KRerror | _ -> KOther in
+    let kd = function "M" | "L" | "K" -> KMatch | "E" -> KRerror | _ -> KOther in
     let deliv = List.concat (List.mapi (fun pos (idx, kk) ->
         if pos < delivered then [LRecvFrame (n_of_int idx, kd kk); LDeliver; LTake (nat idx)] else []) order) in
     let pending = List.filter (fun i -> expected.(i) = "connerr") (List.init n (fun i -> i)) in
@@ -96,6 +107,15 @@ let check_line (l : string) : string =
     if hang then "ORACLE C09.interleaved_call_never_returned script=" ^ script
     else if List.exists (fun r -> r <> "ok:1") res then "ORACLE C09.interleaved_call_wrong_reply script=" ^ script ^ " res=" ^ String.concat "," res
     else if not tb then "ORACLE C09.tags_not_recycled script=" ^ script
+    else "OK"
+  | "CT" ->
+    let n = next_int t in
+    expect t "ORDER"; let order = next_bool t in
+    expect t "PAIRED"; let paired = next_bool t in
+    expect t "HANG"; let hang = next_bool t in
+    if hang then Printf.sprintf "ORACLE C09.shared_tag_request_never_completed n=%d" n
+    else if not order then Printf.sprintf "ORACLE C09.shared_tag_completions_out_of_order n=%d" n
+    else if not paired then Printf.sprintf "ORACLE C09.shared_tag_reply_paired_with_wrong_request n=%d" n
     else "OK"
   | "SOAK" ->
     let n = next_int t in expect t "OK"; let ok = next_bool t in
